@@ -16,6 +16,7 @@
    6. `unpackMsg_wf`, `decode_pack_canonical`, `raw_bytes_verbatim`, `spec_model_ok`
    7. non-vacuity examples, `pins`
 -/
+import MosVerif.Lemmas.TranslatedC02
 import MosVerif.Lemmas.CodecWF
 import MosVerif.Model.WireIO
 namespace MosVerif.C02
